@@ -630,3 +630,22 @@ TRIAGE[("C18", "R3",
     "replayed": "quantized_po2(4, max_value=1)(2**-8) == 2**-8 while "
                 "PowerOfTwo.get_min_max_exp() == (4, 0) on the real code "
                 "before the fix; (8, 0) after"}
+TRIAGE[("C13", "R5", "qkeras/qnormalization.py::QBatchNormalization",
+        "quantizer-changed-by-config-round-trip:activation")] = {
+    "what_fails": "QBatchNormalization stores the `activation` option "
+                  "(self.activation) but get_config() has no entry for it: "
+                  "the layer rebuilt from its own config has activation "
+                  "None (same defect as R2 option-not-serialised:activation; "
+                  "call() never applies the option)",
+    "replayed": "by reading QBatchNormalization.__init__ / get_config"}
+TRIAGE[("C16", "R7",
+        "qkeras/qtools/quantized_operators/multiplier_impl.py::AndGate",
+        "sibling-operand-class-treated-differently")] = {
+    "status": "fixed", "commit": "d5502ff",
+    "what_fails": "AndGate recognised a 0/1 weight only by name == 'binary': "
+                  "a Bernoulli weight (documented 'same as binary(0, 1)') "
+                  "times a fixed-point input got the weight's int_bits (1) "
+                  "instead of the input's",
+    "replayed": "MultiplierFactory().make_multiplier(Bernoulli(), "
+                "QuantizedBits bits=8 int_bits=4).output.int_bits == 1 on "
+                "the real code before the fix, 4 with Binary(use_01=True)"}
